@@ -5,6 +5,12 @@ from .. import monitors as M, largefiles
 
 def run(ctx):
     scs = _scn.standard_pool(ctx, ctx.scale(70, 1200), ctx.scale(45, 600))
+    # patterns are matched relative to the COMMAND root, also when -sf names a folder that belongs to a nested history
+    for pat in ("C/x/skip.txt", "C/x/", "/C/x/skip.txt", "x/skip.txt"):
+        scs.insert(0, {"profile": "c02-sf-anchored", "root": "root", "tree": {"C/x/skip.txt": "s", "C/x/keep.txt": "k", "C/y.txt": "y", "top.txt": "t", "x/skip.txt": "outer"},
+                       "ops": [{"op": "create", "at": "C", "h": ["md5"], "now": "2026-03-01 12:00:01"}, {"op": "create", "at": "", "h": ["md5"], "now": "2026-03-01 12:00:02", "i": [pat]},
+                               {"op": "create", "at": "", "h": ["sha1"], "now": "2026-03-01 12:00:03", "sf": ["C"]}, {"op": "create", "at": "", "h": ["xxh64"], "now": "2026-03-01 12:00:04", "sf": ["C/x", "top.txt"]},
+                               {"op": "verify", "at": ""}]})
     return _scn.run_scn(ctx, scs, M.m_c02, extra_fails=largefiles.extra(ctx), witness_ids=("D5a", "D10", "D4b"),
         assumptions=["trees of regular files and directories (no symbolic links); names are valid UTF-8 without control characters",
                      "'excluded' is defined by pathspec gitwildmatch applied to the path relative to the command root"])
